@@ -152,6 +152,16 @@ def theorem_names(lean_rel):
     return [prefix + n for n in re.findall(r"^theorem\s+([A-Za-z0-9_'.]+)", src, re.M)]
 
 
+def extra_props(ctx, names):
+    """further property-theorem modules of the same property (Props/<name>.lean): build + axiom audit each"""
+    for n in names:
+        if os.path.exists(os.path.join(LEAN, "TomlVerif", "Props", n + ".lean")):
+            lake_build(ctx, [f"TomlVerif.Props.{n}"], {f"TomlVerif.Props.{n}": "property theorems"})
+            audit(ctx, f"TomlVerif.Props.{n}", f"TomlVerif/Props/{n}.lean")
+        else:
+            ctx.oblige(f"property theorems TomlVerif.Props.{n}", False, "module missing")
+
+
 def audit(ctx, module, lean_rel):
     """#print axioms for every theorem of a Props file; forbidden-word grep over the project."""
     names = theorem_names(lean_rel)
